@@ -86,6 +86,27 @@ inductive RecvRes
 
 def setState (s : St) (x : SState) : St := ({ s with state := x }).log (.setState x)
 
+/-- the receiver stops at any session envelope; if that envelope did not end the session the channel
+must not go on looking established: the transport is closed -/
+def stopsEstablished (s : St) : St := if s.state = .established then { s with connected := false } else s
+
+@[simp] theorem stopsEstablished_trace (s : St) : (stopsEstablished s).trace = s.trace := by
+  unfold stopsEstablished; split <;> rfl
+@[simp] theorem stopsEstablished_state (s : St) : (stopsEstablished s).state = s.state := by
+  unfold stopsEstablished; split <;> rfl
+@[simp] theorem stopsEstablished_sid (s : St) : (stopsEstablished s).sid = s.sid := by
+  unfold stopsEstablished; split <;> rfl
+@[simp] theorem stopsEstablished_enc (s : St) : (stopsEstablished s).enc = s.enc := by
+  unfold stopsEstablished; split <;> rfl
+@[simp] theorem stopsEstablished_comp (s : St) : (stopsEstablished s).comp = s.comp := by
+  unfold stopsEstablished; split <;> rfl
+@[simp] theorem stopsEstablished_local (s : St) : (stopsEstablished s).localNode = s.localNode := by
+  unfold stopsEstablished; split <;> rfl
+@[simp] theorem stopsEstablished_remote (s : St) : (stopsEstablished s).remoteNode = s.remoteNode := by
+  unfold stopsEstablished; split <;> rfl
+@[simp] theorem stopsEstablished_recvs (s : St) : (stopsEstablished s).recvs = s.recvs := by
+  unfold stopsEstablished; split <;> rfl
+
 /-- the receiver goroutine's part of `receiveSession` once the channel is established: envelopes
 of other kinds go to the application streams, the first session envelope is handed over and, on
 the client, its state adopted through `setStateWLock`; a transport error ends the receiver
@@ -97,9 +118,9 @@ def recvViaReceiver (c : Cfg) : Nat → St → RecvRes × St
     match q.1 with
     | none => (.err, q.2)
     | some (.ses x) =>
-      if stateAccepted q.2 x.state then (.got x, setState q.2 x.state)
+      if stateAccepted q.2 x.state then (.got x, stopsEstablished (setState q.2 x.state))
       else if regressPanics then (.panic, q.2)       -- on the receiver goroutine
-      else (.got x, q.2)
+      else (.got x, stopsEstablished q.2)
     | some .other => recvViaReceiver c fuel q.2
     | some (.fail _) => (.err, { q.2 with connected := false })   -- the receiver gives up and closes the transport
     | some (.sesGone _) => (.err, q.2)             -- not produced by `nextItem`
